@@ -8,15 +8,15 @@ unit('strpriv', functions=F, spec='contracts/strpriv.spec', harness='harness/str
 # callers verified against the CONTRACTS of compare_ci(l,r,n) and find_ci(h,n,ch) (stubs in harness/strpriv.c), not their bodies
 unit('strpriv_mod', functions=[f for f in F if f not in ('stp_compare_ci__pc_pc_sz', 'stp_find_ci__pc_sz_c')], stubs=['stp_compare_ci__pc_pc_sz', 'stp_find_ci__pc_sz_c'],
      spec='contracts/strpriv_mod.spec', harness='harness/strpriv.c', include=INC)
-job('strpriv', 'cl_fast', 'h_cl_fast', ['C06', 'C07'], expect=[r'stp_cl_fast_lower\.postcondition', r'stp_cl_fast_upper\.postcondition'])
+job('strpriv', 'cl_fast', 'h_cl_fast', ['C06', 'C07', 'C09'], expect=[r'stp_cl_fast_lower\.postcondition', r'stp_cl_fast_upper\.postcondition'])
 job('strpriv', 'buffer_compare', 'h_buffer_compare', ['C06'], expect=[r'ST_buffer_char_compare\.postcondition\.[123]'])
 job('strpriv', 'compare_cs4', 'h_compare_cs4', ['C06'], expect=[r'stp_compare_cs4\.postcondition\.[123]'])
 job('strpriv', 'buffer_compare_n', 'h_buffer_compare_n', ['C06'], expect=[r'ST_buffer_char_compare_n\.postcondition\.[123]'])
-job('strpriv', 'compare_ci3', 'h_compare_ci3', ['C06', 'C07'], expect=[r'stp_compare_ci\.postcondition\.[123]', r'stp_compare_ci__pc_pc_sz\.loop0\.invariant_step'])
+job('strpriv', 'compare_ci3', 'h_compare_ci3', ['C06', 'C07', 'C09'], expect=[r'stp_compare_ci\.postcondition\.[123]', r'stp_compare_ci__pc_pc_sz\.loop0\.invariant_step'])
 job('strpriv_mod', 'compare_ci4', 'h_compare_ci4', ['C06'], expect=[r'stp_compare_ci4\.postcondition\.[123]'])
 job('strpriv_mod', 'compare_ci5', 'h_compare_ci5', ['C06'], expect=[r'stp_compare_ci5\.postcondition\.[123]'])
-job('strpriv', 'find_ci_char', 'h_find_ci_char', ['C07'], expect=[r'stp_find_ci_char\.postcondition\.[12]', r'stp_find_ci__pc_sz_c\.loop0\.invariant_step'])
-job('strpriv', 'find_cs_needle', 'h_find_cs_needle', ['C07'], expect=[r'stp_find_cs_needle\.postcondition\.[123]', r'stp_find_cs__pc_sz_pc_sz\.loop0\.invariant_step', r'stp_find_cs__pc_sz_pc_sz\.loop0\.decreases'])
-job('strpriv_mod', 'find_ci_needle', 'h_find_ci_needle', ['C07'], expect=[r'stp_find_ci_needle\.postcondition\.[123]', r'stp_find_ci__pc_sz_pc_sz\.loop0\.invariant_step'])
-PROPS['C06'] = dict(level='proof', explanation='(leaf level) compare = first differing element under unsigned order, then length, for operands of any length; case-insensitive compare = first fold-difference; fold functions over all 256 values', trusted_base=['char_traits<char>::compare contract (prelude.h tr_compare_char)'], assumptions=[])
-PROPS['C07'] = dict(level='proof', explanation='(leaf level) needle and character search return the first occurrence for haystacks and needles of unbounded length (witness ghosts instead of quantifiers)', trusted_base=['char_traits<char>::find / compare contracts (prelude.h)'], assumptions=[])
+job('strpriv', 'find_ci_char', 'h_find_ci_char', ['C07', 'C09'], expect=[r'stp_find_ci_char\.postcondition\.[12]', r'stp_find_ci__pc_sz_c\.loop0\.invariant_step'])
+job('strpriv', 'find_cs_needle', 'h_find_cs_needle', ['C07', 'C09'], expect=[r'stp_find_cs_needle\.postcondition\.[123]', r'stp_find_cs__pc_sz_pc_sz\.loop0\.invariant_step', r'stp_find_cs__pc_sz_pc_sz\.loop0\.decreases'])
+job('strpriv_mod', 'find_ci_needle', 'h_find_ci_needle', ['C07', 'C09'], expect=[r'stp_find_ci_needle\.postcondition\.[123]', r'stp_find_ci__pc_sz_pc_sz\.loop0\.invariant_step'])
+PROPS['C06'] = dict(level='proof', explanation='buffer / string compare = first differing element under unsigned order, then length, for operands of any length; case-insensitive compare = first fold-difference; fold functions over all 256 values', trusted_base=['char_traits<char>::compare contract (prelude.h tr_compare_char)'], assumptions=[])
+PROPS['C07'] = dict(level='proof', explanation='needle and character search return the first occurrence for haystacks and needles of unbounded length (witness ghosts instead of quantifiers)', trusted_base=['char_traits<char>::find / compare contracts (prelude.h)'], assumptions=[])
